@@ -611,6 +611,11 @@ func scenC11(run *vlab.Run, sx, tmp string) {
 					if rng.Intn(4) == 0 { // answered twice: two lines, the last wins (same MAC here)
 						cr.Inject(d, oracle.BuildEth(tapMACb, m, oracle.EtherTypeARP, oracle.BuildARP(2, m, oracle.U32ToIP(a), tapMACb, foreignSrc)))
 					}
+					if i%2 == 1 {
+						// an ARP frame that cannot be decoded (address sizes larger than the frame): the scan logs an error
+						// for it - on its error stream, never among the lines a cache loader will read
+						cr.Inject(d, oracle.BuildEth(tapMACb, m, oracle.EtherTypeARP, oracle.BuildARPRaw(1, oracle.EtherTypeIPv4, 200, 4, 2, m[:], ipBytesW(a), nil, nil)))
+					}
 				}
 			}})
 		run.Eval(1)
@@ -618,6 +623,15 @@ func scenC11(run *vlab.Run, sx, tmp string) {
 			continue
 		}
 		arpOut := strings.Join(resA.Stdout, "")
+		if strings.Contains(resA.Stderr, "\"level\":\"error\"") || strings.Contains(resA.Stderr, "error") {
+			run.Count("arp_runs_with_logged_errors", 1)
+		}
+		for _, l := range resA.Stdout {
+			if _, err := parseRecord(strings.TrimSpace(l)); err != nil {
+				run.Violation("arp-stdout-line-not-a-record", fmt.Sprintf("the ARP scan printed a line on stdout that is not an ARP record (a cache loader will read it): %.300q", l), argsA)
+				break
+			}
+		}
 		// what the ARP scan actually PRINTED is the cache (last line wins); whether it printed every reply is C03's business
 		printedMAC := map[uint32][6]byte{}
 		for _, l := range resA.Stdout {
@@ -1125,4 +1139,9 @@ func scenC02App(run *vlab.Run, sx, tmp string) {
 		_ = th
 		run.Distinct(strings.Join(args, " ") + mode + fmt.Sprint(status))
 	}
+}
+
+func ipBytesW(a uint32) []byte {
+	b := oracle.U32ToIP(a)
+	return b[:]
 }
